@@ -68,7 +68,17 @@ func main() {
 	list := flag.Bool("list", false, "list properties")
 	noEvidence := flag.Bool("no-evidence", false, "do not write evidence (used by self tests)")
 	verbose := flag.Bool("v", false, "print every obligation")
+	selftest := flag.Bool("selftest", false, "run the seeded/benign overlay variants (developer gate; fatal on a miss)")
+	variantName := flag.String("variant", "", "internal: run one variant in this process")
+	par := flag.Int("par", 4, "selftest parallelism")
 	flag.Parse()
+	if *variantName != "" {
+		runVariantChild(*repo, *variantName, loadKnown(filepath.Join(*verif, "known_findings.json")))
+		return
+	}
+	if *selftest {
+		os.Exit(runSelftest(*repo, *verif, flag.Arg(0), *par))
+	}
 	if *tier == "" {
 		*tier = "quick"
 	}
